@@ -110,10 +110,12 @@ def finish (commitOnError : Bool) (x : Run × Option Err) : Conn :=
 def expandOps (tableName : String) : List BatchOp → List BatchOp
   | [] => []
   | .addColumn c b a cd :: r =>
-    if c.index then
-      .addColumn c b a cd :: .createIndex { name := "ix_" ++ tableName ++ "_" ++ c.name, cols := [c.name], unique := false }
-        :: expandOps tableName r
-    else .addColumn c b a cd :: expandOps tableName r
+    -- impl.add_column; then add_constraint for every non-PK constraint of the column's table; then create_index
+    .addColumn c b a cd ::
+      -- `Column(unique=True)` alone makes an (unnamed) UniqueConstraint; together with `index=True` a UNIQUE index instead
+      ((if c.unique && !c.index then [BatchOp.addConstraint { kind := .unique, name := none, cols := [c.name] }] else []) ++
+       (if c.index then [BatchOp.createIndex { name := "ix_" ++ tableName ++ "_" ++ c.name, cols := [c.name], unique := c.unique }] else []) ++
+       expandOps tableName r)
   | o :: r => o :: expandOps tableName r
 
 /-- `BatchOperationsImpl.add_column`: position arguments need a recreate *at the time of the call* -/
@@ -140,7 +142,8 @@ structure Outcome where
 /-- `with op.batch_alter_table(t, recreate=…, copy_from=…) as b: ops` on a connection whose database is `db` -/
 def runBatch (ct : ConvTable) (tableName : String) (reflected always : Bool) (ops : List BatchOp)
     (fault : Option Nat) (commitOnError : Bool) (db : Db) (mode : ConnMode := .pysqliteLegacy)
-    (transactionalDdl : Bool := false) (copyFrom : Option Schema := none) (failKind : FailKind := .exception) : Outcome :=
+    (transactionalDdl : Bool := false) (copyFrom : Option Schema := none) (failKind : FailKind := .exception)
+    (partialReordering : List (List String) := []) : Outcome :=
   let ops := expandOps tableName ops
   let c0 := Conn.start mode db
   if queueError always [] ops then { recreated := false, trace := [], err := some .commandError, final := db }
@@ -155,7 +158,7 @@ def runBatch (ct : ConvTable) (tableName : String) (reflected always : Bool) (op
     match src with
     | none => { recreated := true, trace := [], err := some .noSuchTable, final := db }
     | some schema =>
-      match ((State.init tableName reflected schema).applyOps ops).bind State.reorder with
+      match ((State.init tableName reflected schema partialReordering).applyOps ops).bind State.reorder with
       | .error e => { recreated := true, trace := [], err := some e, final := db }
       | .ok st =>
         if !distinct (st.columns.map (·.2.name)) then
